@@ -126,16 +126,21 @@ func vGen64(p string) (*Bitmap, *wSet) {
 			inner.Add(lo)
 			s.elems = append(s.elems, uint64(key)<<32|uint64(lo))
 		}
-		if vsym.Param(p+"four") == 1 {
-			// exactly four chunks, one of them a run chunk (the offset-header threshold of the inner format)
-			inner.AddRange(196608+10, 196608+20)
-			for c := uint32(0); c < 3; c++ {
+		if nch := vsym.Param(p + "four"); nch >= 1 {
+			// exactly nch chunks (four = 1 means 4: the offset-header threshold of the inner format; 8: a whole byte of
+			// run flags), the last of them a run chunk
+			if nch == 1 {
+				nch = 4
+			}
+			rb0 := uint64(nch-1)<<16 + 10
+			inner.AddRange(rb0, rb0+10)
+			for c := uint32(0); c < uint32(nch-1); c++ {
 				lo := c<<16 | uint32(vsym.U16())
 				inner.Add(lo)
 				s.elems = append(s.elems, uint64(key)<<32|uint64(lo))
 			}
-			for v := uint32(196608 + 10); v < 196608+20; v++ {
-				s.elems = append(s.elems, uint64(key)<<32|uint64(v))
+			for v := rb0; v < rb0+10; v++ {
+				s.elems = append(s.elems, uint64(key)<<32|v)
 			}
 			inner.RunOptimize()
 		}
